@@ -38,8 +38,8 @@ PLANS = {
                 quick=[("moves", 300, ""), ("parmoves", 60, ""), ("multix", 20, ""), ("tlcev", 367, "k=3"), ("tlcev", 300, "k=4")],
                 thorough=[("moves", 8000, ""), ("moves", 1000, "depth=80"), ("parmoves", 1500, ""), ("multix", 300, ""), ("tlcev", 3000, "k=4"), ("tlcev", 8000, "k=5")]),
     "C12": dict(engine=INO, mc=["MC_WatchSet"],
-                quick=[("wsexh", 700, "k=3"), ("cycle", 6, "n=150"), ("wsrand", 150, ""), ("repoint", 60, ""), ("endwatch", 80, ""), ("tlcws", 600, "k=3")],
-                thorough=[("wsexh", 2744, "k=3"), ("wsexh", 12000, "k=4"), ("cycle", 50, "n=1000"), ("wsrand", 5000, ""), ("repoint", 600, ""), ("endwatch", 2000, "")]),
+                quick=[("wsexh", 700, "k=3"), ("cycle", 6, "n=150"), ("wsrand", 150, ""), ("repoint", 60, ""), ("endwatch", 80, ""), ("tlcws", 600, "k=3"), ("recurse", 150, ""), ("tlcreclag", 400, "k=4")],
+                thorough=[("wsexh", 2744, "k=3"), ("wsexh", 12000, "k=4"), ("cycle", 50, "n=1000"), ("wsrand", 5000, ""), ("repoint", 600, ""), ("endwatch", 2000, ""), ("recurse", 2000, ""), ("tlcreclag", 7000, "k=4")]),
     "C13": dict(engine=INO, mc=["MC_Sched"], also_lin=True,
                 quick=[("close", 200, ""), ("newclose", 3, "n=300"), ("lag", 60, ""), ("ovfstall", 1, "mode=close"), ("readfault", 40, "")],
                 thorough=[("close", 5000, ""), ("newclose", 10, "n=1000"), ("lag", 1500, ""), ("readfault", 600, ""), ("ovfstall", 6, "mode=close")]),
@@ -49,8 +49,8 @@ PLANS = {
 }
 
 PLANS["C19"] = dict(engine=INO, mc=["MC_Recurse"],
-                    quick=[("recurse", 300, ""), ("recerr", 30, ""), ("tlcrec", 500, "k=3"), ("tlcrec", 600, "k=4")],
-                    thorough=[("recurse", 8000, ""), ("recerr", 400, ""), ("tlcrec", 5000, "k=4"), ("tlcrec", 12000, "k=5")])
+                    quick=[("recurse", 300, ""), ("recerr", 30, ""), ("tlcrec", 500, "k=3"), ("tlcrec", 600, "k=4"), ("tlcreclag", 600, "k=4")],
+                    thorough=[("recurse", 8000, ""), ("recerr", 400, ""), ("tlcrec", 5000, "k=4"), ("tlcrec", 12000, "k=5"), ("tlcreclag", 7000, "k=4"), ("tlcreclag", 8000, "k=5")])
 _KQ = dict(engine="kq", driver="kqrun", trace_spec="KqueueTrace", mc=["MC_Kq"],
            assumptions=["the kqueue backend is the working tree's source compiled on Linux against a simulated kqueue (harness/simkq/unix): real descriptors on a real "
                         "directory tree, NOTE_* raised per operation as FreeBSD's vop_*_post hooks do, all notes of one operation raised atomically",
